@@ -102,8 +102,8 @@ def run(ctx):
     tilts = [v["name"] for v in prog.adt("bemodel::types::common::Tilt")["variants"]]
     kinds = [v["name"] for v in prog.adt("bemodel::types::thermalbridge::ThermalBridgeKind")["variants"]]
     filt = [ch for (b, t, ch) in root.children() if ch.via[0] == "filter" and (ch.via[1].source_name() or "").endswith("props.walls")]
-    ctx.require(len(filt) == 1, "KData::from: wall filter not found")
-    scope_table(ctx, "c08.scope", "c08.scope|opaques", filt[0], ["is_tenv", "bounds"], {"bounds": bt},
+    ctx.require(len(filt) >= 1, "KData::from: wall filter not found")
+    scope_table(ctx, "c08.scope", "c08.scope|opaques", filt, ["is_tenv", "bounds"], {"bounds": bt},
                 lambda a: a["is_tenv"] and a["bounds"] in ("EXTERIOR", "GROUND"), f.loc())
     wfil = [ch for sc in root.all_scopes() for (b, t, ch) in sc.children() if ch.via[0] == "filter" and (ch.via[1].source_name() or "").endswith("props.windows")]
     ctx.require(len(wfil) == 1, "KData::from: window filter not found")
@@ -298,6 +298,9 @@ def run(ctx):
         ctx.ok("c08.prov", "c08.prov|WallProps.multiplier", "multiplier = multiplier of the wall's space (1 when missing)", ep.loc(ln))
     else:
         ctx.violation("c08.prov", "c08.prov|WallProps.multiplier", "multiplier is %s" % mu, ep.loc(ln))
+    # the `is_tenv` K filters on is the envelope membership of the statement (same truth table as C11-D2, evaluated here for K's sake)
+    from .c11 import check_envelope_membership
+    check_envelope_membership(ctx, prog, ep, esc, rule="c08.scope")
     # D6 no names in EnergyProps
     ea = prog.adt("bemodel::energy::props::EnergyProps")
     wseen, ext, fields = T.closure(prog, [ea["id"]])
